@@ -133,6 +133,10 @@ func verifC05(keyAspect bool) {
 			return nil, false, 0
 		}
 		v := now + verifapi.NondetIntRange(n+".delta", -(1 << 31), 1<<31)
+		if flag(n + ".near-epoch") {
+			// instants around the epoch, independent of the clock (so that a counterexample replays natively)
+			v = verifapi.NondetIntRange(n+".epoch-offset", -1000, 1000)
+		}
 		d := oauth2.NumericDate(v)
 		return &d, true, v
 	}
